@@ -25,9 +25,9 @@ def run(ctx):
     repo_lib.model_check(ctx,
                          [(ctx.q("MC_Repo_quick", "MC_Repo"), ctx.q(6, 10), ctx.q(900, 3000))],
                          [("MC_Repo_neg_nopred", True)])
-    repo_lib.simulate(ctx, ctx.q(60, 1500))
-    repo_lib.record_and_judge(ctx, "C46", ctx.q(60, 1500), ctx.q(7, 9), is_mine, nontrivial)
-    repo_lib.replay(ctx, "C46", ctx.q(25, 800))
+    repo_lib.simulate(ctx, ctx.q(50, 600))
+    repo_lib.record_and_judge(ctx, "C46", ctx.q(60, 600), ctx.q(7, 9), is_mine, nontrivial)
+    repo_lib.replay(ctx, "C46", ctx.q(20, 300))
     ctx.cov["rule"] = ("evaluations = real walk_predecessors calls judged by TLC (I->S) + replayed model steps (S->I); "
                        "non-trivial = the walk lists at least one predecessor; distinct by (operation, start commit, output) within its case")
     ctx.assumptions += repo_lib.COMMON_ASSUMPTIONS
